@@ -194,6 +194,30 @@ def run_case(desc, ctx):
                               first_accessor=S[first][0], cleared=clear_at is not None)
                 elif (name in T0) != (name in T):
                     ctx.obs("order_equal", name)  # the failing query itself was already reported by run_script
+    # history: two live surfaces.  A patch of the surface (part of its faces) is built on the very vertex container of the first object (so that
+    # coordinates are not duplicated) and asked about its own border; the first object must go on answering from its own face list
+    if desc["seed"] % 5 == 1 and len(F) >= 2 and not no_edges:
+        ctx.cls("history:second_surface_on_the_same_vertex_container")
+        import mouette as M
+        sub = F[:max(1, len(F) // 2)] if desc["seed"] % 2 else F[len(F) // 2:]
+        with build.config(sort_neighborhoods=sorted_on):
+            try:
+                raw1 = M.mesh.RawMeshData()
+                raw1.vertices = m0.vertices
+                raw1.faces += build.rows(sub, desc["irows"])
+                m1 = M.mesh.SurfaceMesh(raw1)
+                _ = [m1.is_vertex_on_border(v) for v in range(len(V))]
+                _ = (list(m1.boundary_vertices), list(m1.interior_vertices), list(m1.boundary_edges), list(m1.interior_edges))
+                _ = [m1.connectivity.vertex_to_vertices(v) for v in range(len(V))]
+            except Exception as e:  # the patch may be pinched at a vertex: what it answers itself is not judged here
+                ctx.note("patch_on_shared_vertices_raised_" + type(e).__name__)
+            order = list(range(nacc))
+            rng.shuffle(order)
+            T = surfconn.run_script(ctx, m0, S, order)
+            for name, _ in S:
+                if name in T0 and name in T:
+                    ctx.check(T[name] == T0[name], "order_equal", name, "answer_changed_by_another_live_surface",
+                              "%s answers differently after a second surface built on the same vertex container was queried" % name)
     # history: the connectivity was computed under the OTHER value of the sorting switch; the switch is then set, the connectivity is cleared
     # (documented way to have it recomputed) and each accessor in turn is the first one asked: the answers must be those of a fresh mesh
     if desc["seed"] % 3 == 0 and not no_edges:
